@@ -120,6 +120,7 @@ func VerifyFunc(w *World, fn *ssa.Function, c *Contract, mode string) (res *FnRe
 		if _, ok := p.Type().Underlying().(*types.Pointer); ok {
 			fc.B.Assert(or(eq(v.T, "0"), "(alive0 "+v.T+")"))
 		}
+		fc.paramPointersAlive(p.Type(), v.T, 0)
 		if v.S == "Ctx" {
 			fc.B.Assert("(br_alive0 (c_br " + v.T + "))")
 		}
@@ -312,4 +313,37 @@ func (fc *FnCtx) frameObl(c *Contract, env *Env, entry, out *State, retCond stri
 	}
 	conds = append(conds, not(eq("(select "+out.worlds+" "+b+")", "(select "+entry.worlds+" "+b+")")))
 	fc.addObl("#frame.worlds", "body", and(conds...), "only the worlds named in modifies change")
+}
+
+// paramPointersAlive: pointers stored inside a parameter value (elements of a slice of pointers, pointer
+// fields of a struct, two levels deep) refer to objects that existed at function entry (or are nil) - they
+// can never coincide with an object the function allocates itself.
+func (fc *FnCtx) paramPointersAlive(t types.Type, term string, depth int) {
+	if depth > 2 || t == nil {
+		return
+	}
+	switch u := types.Unalias(t).Underlying().(type) {
+	case *types.Slice:
+		if isByte(u.Elem()) {
+			return
+		}
+		switch u.Elem().Underlying().(type) {
+		case *types.Pointer, *types.Map:
+			fc.B.Assert(fmt.Sprintf("(forall ((i Int)) (! (or (= (select (s_arr %s) i) 0) (alive0 (select (s_arr %s) i))) :pattern ((select (s_arr %s) i))))", term, term, term))
+		}
+	case *types.Struct:
+		if _, ok := fc.B.structs[fc.B.SortOf(t)]; !ok {
+			return
+		}
+		info := fc.B.structs[fc.B.SortOf(t)]
+		for _, f := range info.fields {
+			sel := "(" + f.sel + " " + term + ")"
+			switch f.typ.Underlying().(type) {
+			case *types.Pointer, *types.Map:
+				fc.B.Assert(or(eq(sel, "0"), "(alive0 "+sel+")"))
+			default:
+				fc.paramPointersAlive(f.typ, sel, depth+1)
+			}
+		}
+	}
 }
